@@ -27,16 +27,22 @@ META = dict(
                "the oracle demands Terminate and Join of the previous occupant somewhere before the Start, the theorem "
                "proves immediate adjacency. Trusted: Coq kernel + vm_compute; the fakes' rendering of the "
                "multiprocessing.Process life cycle (is_alive()/join() reap; a terminated fake dies at once) and of POSIX kill; "
-               "the synchronous fake queue. Not exhibited: join() blocking on a worker that ignores SIGTERM; "
+               "the synchronous fake queue (FIFO, bounded by maxsize exactly as multiprocessing.Queue: <= 0 = unbounded; a blocking put() "
+               "on a full queue by the manager's own thread never returns - it is the only consumer). The process the manager "
+               "runs in (MainProcess / a multiprocessing child / renamed) is varied; the statement does not depend on it. Not exhibited: join() blocking on a worker that ignores SIGTERM; "
                "multiprocessing.Queue feeder-thread latency (an action put during tick k may become visible one tick later).",
-    rule="case = (workers 1..4, max_fails in {-1,0,1,2,3,5}, first pid, history of <= 40 ticks; per tick: events in the sleep, "
+    rule="case = (workers 1..5, max_fails in {-1,0,1,2,3,5}, first pid, manager process = MainProcess | child started by "
+         "multiprocessing | renamed top-level process, history of <= 40 ticks (7 % with a burst of 2-6 reload requests in one "
+         "tick); per tick: events in the sleep, "
          "in the k-th empty() call, before the j-th is_alive() call of start()); events: worker death, SIGHUP, SIGINT, SIGTERM, "
          "file change. Non-trivial iff some tick carries >= 2 events or a death is followed by its reload in a later tick; "
          "distinct by the whole case. Thorough: exhaustive sleep-event histories (workers 1,2: depth 4; 3: depth 3; "
          "max_fails in {-1,0,1,2,3}), single mid-tick injections (depth 2,2,1) and 50000 random long histories.",
     trusted_base=["model: coq/theories/ProcMan.v (hand-written transcription of taskiq/cli/worker/process_manager.py)",
                   "process / queue / os.kill / signal / sleep fakes in harness/drivers/pm_driver.py (multiprocessing.Process "
-                  "life cycle new/live/zombie/reaped, POSIX kill on a reaped pid, synchronous FIFO queue)"],
+                  "life cycle new/live/zombie/reaped, POSIX kill on a reaped pid, synchronous FIFO queue with multiprocessing.Queue's "
+                  "maxsize semantics, current_process/parent_process/active_children; any other multiprocessing name held by "
+                  "the module is a stub that fails closed)"],
     assumptions=["join() returns (the worker dies on SIGTERM)",
                  "queue.put() is visible to the next empty()/get() (no feeder-thread latency)",
                  "asynchronous events (signals, watchdog callback, worker deaths) happen at the fakes' delivery points: "
